@@ -212,6 +212,7 @@ func c13(c *Ctx) {
 	// connection wherever this hello does not carry the extension that would overwrite them
 	pooledObjectsReset(c, "hello-message-fresh", "services/ja3/crypto/tls")
 	c13HelloFresh(c)
+	c13HandshakeMessageWhole(c)
 	for _, svc := range Services(c) {
 		if svc.Type.Obj().Name() == "httpsService" || os.Getenv("HT_SWEEP") != "" {
 			channelWired(c, "https-events-delivered", svc)
